@@ -184,3 +184,20 @@ func (g *cgraph) callersClosure(f *ssa.Function) map[*ssa.Function]bool {
 	walk(f)
 	return seen
 }
+
+// reachableSlice: functions of package pkg reachable from root through static calls (sorted by name).
+func (g *cgraph) reachableSlice(root *ssa.Function, pkg string) []*ssa.Function {
+	m := g.reachableFrom([]*ssa.Function{root}, func(e cgEdge) bool { return e.Kind == "static" && pkgOf(e.To) == pkg })
+	var out []*ssa.Function
+	for f := range m {
+		out = append(out, f)
+	}
+	for i := 0; i < len(out); i++ {
+		for j := i + 1; j < len(out); j++ {
+			if fname(out[j]) < fname(out[i]) {
+				out[i], out[j] = out[j], out[i]
+			}
+		}
+	}
+	return out
+}
